@@ -386,7 +386,21 @@ func (s *Sim) genEvmTx(k *appdrv.Key) *appdrv.TxSpec {
 		if r.Chance(25) {
 			v = val()
 		}
-		return s.base(k, ctrlertypes.TRX_CONTRACT, rtypes.ZeroAddress(), v, &ctrlertypes.TrxPayloadContract{Data: code})
+		dsp := s.base(k, ctrlertypes.TRX_CONTRACT, rtypes.ZeroAddress(), v, &ctrlertypes.TrxPayloadContract{Data: code})
+		if r.Chance(15) {
+			// gas around the intrinsic gas of a CREATION (53000 + data) and of a call (21000 + data): a deployment
+			// is admitted only if it covers the former
+			dataGas := uint64(0)
+			for _, b := range code {
+				if b == 0 {
+					dataGas += 4
+				} else {
+					dataGas += 16
+				}
+			}
+			dsp.Gas = []uint64{21000 + dataGas, 21000 + dataGas + uint64(r.Range(1, 31999)), 53000 + dataGas - 1, 53000 + dataGas, 53000 + dataGas + uint64(r.Range(1, 2000))}[r.Intn(5)]
+		}
+		return dsp
 	}
 	if r.Chance(25) && (len(s.Children) > 0 || len(s.Contracts) > 0) {
 		// plain transfer to a contract address (top-level deployed: routed through the EVM; inner-created: not)
